@@ -42,7 +42,9 @@ var c18Fees = []feeOpt{
 	{"20000000000000000000uregen", &sdk.Coin{Denom: "uregen", Amount: sdk.NewIntFromUint64(10000000000000000000).MulRaw(2)}},
 }
 
-var c18Allow = []string{"off", "on+empty", "on+creator"}
+// the last one: the creator is added, the list switched on, off and on again (a governance change reverted)
+var c18Allow = []string{"off", "on+empty", "on+creator", "on+creator,toggled-off-and-on"}
+
 // c18Mixed is a bank denom using every character class sdk.ValidateDenom admits.
 const c18Mixed = "Wrapped/Asset:v1.X-y_Z"
 
@@ -79,11 +81,15 @@ func (c c18cfg) govMessages() []*explore.Action {
 		scen.Msg("UpdateClassFee("+c18Fees[c.classFee].name+")", &basetypes.MsgUpdateClassFee{Authority: g, Fee: copyCoin(c18Fees[c.classFee].coin)}),
 		scen.Msg("UpdateBasketFee("+c18Fees[c.basketFee].name+")", &baskettypes.MsgUpdateBasketFee{Authority: g, Fee: copyCoin(c18Fees[c.basketFee].coin)}),
 	}
+	if c.allow >= 2 {
+		acts = append(acts, scen.Msg("AddClassCreator(D)", &basetypes.MsgAddClassCreator{Authority: g, Creator: scen.D.String()}))
+	}
 	if c.allow > 0 {
 		acts = append(acts, scen.Msg("SetClassCreatorAllowlist(on)", &basetypes.MsgSetClassCreatorAllowlist{Authority: g, Enabled: true}))
 	}
-	if c.allow == 2 {
-		acts = append(acts, scen.Msg("AddClassCreator(D)", &basetypes.MsgAddClassCreator{Authority: g, Creator: scen.D.String()}))
+	if c.allow == 3 {
+		acts = append(acts, scen.Msg("SetClassCreatorAllowlist(off)", &basetypes.MsgSetClassCreatorAllowlist{Authority: g, Enabled: false}),
+			scen.Msg("SetClassCreatorAllowlist(on again)", &basetypes.MsgSetClassCreatorAllowlist{Authority: g, Enabled: true}))
 	}
 	want := map[string]bool{}
 	for _, d := range c18Denoms[c.denoms] {
@@ -116,7 +122,7 @@ func (c c18cfg) patchGenesis(d scen.GenDoc) {
 	d.Set("regen.ecocredit.basket.v1.BasketFee", fee(c18Fees[c.basketFee]))
 	d.Set("regen.ecocredit.v1.ClassCreatorAllowlist", map[string]bool{"enabled": c.allow > 0})
 	creators := []map[string][]byte{}
-	if c.allow == 2 {
+	if c.allow >= 2 {
 		creators = append(creators, map[string][]byte{"address": scen.D})
 	}
 	d.Set("regen.ecocredit.v1.AllowedClassCreator", creators)
@@ -346,7 +352,7 @@ func marketOp() c18op {
 			}
 			bid := sdk.NewInt64Coin(den, 1000)
 			c.Fund(branch, scen.D, sdk.NewCoins(sdk.NewInt64Coin(den, 10_000_000))) // the buyer's own precondition
-			maxFee := sdk.NewInt64Coin(den, 1_000_000) // well above floor(buyer fee) for every accepted rate in the alphabet
+			maxFee := sdk.NewInt64Coin(den, 1_000_000)                              // well above floor(buyer fee) for every accepted rate in the alphabet
 			buy := scen.Msg(fmt.Sprintf("BuyDirect(D,0.5@1000%s)", strings.SplitN(den, "/", 2)[0]), &markettypes.MsgBuyDirect{Buyer: scen.D.String(), Orders: []*markettypes.MsgBuyDirect_Order{
 				{SellOrderId: r.SellOrderIds[0], Quantity: "0.5", BidPrice: &bid, DisableAutoRetire: true, MaxFeeAmount: &maxFee}}})
 			preBuy := c.Snap(branch)
